@@ -161,8 +161,7 @@ ModeName(l, m) == IF l[1] \in {"statesLock", "db"} THEN l[1] \o "." \o (IF m = "
 Go(g, to) == pc' = [pc EXCEPT ![g] = to]
 Go2(g, to, g2, to2) == pc' = [pc EXCEPT ![g] = to, ![g2] = to2]
 
-\* what an acquire step of g wants: [l, m ("X" exclusive | "R" shared), to (set of next pcs)]; m = "-": pc[g] is no acquire step
-NoAcq == [l |-> None, m |-> "-", to |-> {}]
+\* what an acquire step of g may want: a set of [l, m ("X" exclusive | "R" shared), to (set of next pcs)]; {} = no acquire step
 A(l, m, to) == [l |-> l, m |-> m, to |-> to]
 
 UOf(s) == sstate[s]      \* the user a session works for
@@ -175,59 +174,65 @@ UOf(s) == sstate[s]      \* the user a session works for
 \* The bounded model keeps one section of every nesting shape: a W section is a Q section without the inner lock.
 EndPc(s) == IF cur[s] = "noop" THEN "H.fin" ELSE "H.cmd.ru"
 SecNext(s, after) ==    \* pcs that may follow position `after` ("start" | "R" | "W" | "Q") of the handler's program
-  IF FreeSections THEN {"H.R.acq", "H.W.acq", "H.Q.acq", EndPc(s)}
+  IF FreeSections THEN {"H.sec"}
   ELSE CASE cur[s] = "sel"  -> (CASE after = "start" -> {"H.R.acq"} [] after = "R" -> {"H.Q.acq"} [] OTHER -> {EndPc(s)})
          [] cur[s] = "noop" -> (CASE after = "start" -> {"H.R.acq"} [] after = "R" -> {"H.W.acq"} [] OTHER -> {EndPc(s)})
          [] OTHER           -> (CASE after = "start" -> {"H.Q.acq"} [] OTHER -> {EndPc(s)})
 
 \* the sections of one user.apply: bounded model: [db.Read]; db.Write; forState.  Trace validation: any sequence.
 UNext(after) ==
-  IF FreeSections THEN {"U.R.acq", "U.W.acq", "U.sl.acq", "U.sel"}
+  IF FreeSections THEN {"U.sec"}
   ELSE CASE after = "start" -> {"U.R.acq", "U.W.acq"} [] after = "R" -> {"U.W.acq"} [] after = "W" -> {"U.sl.acq"} [] OTHER -> {"U.sel"}
 
 AcqAt(g, p) ==
   LET k == g[1]  id == g[2] IN
   CASE
     \* handle_capability.go:handleCapability: capsLock.Lock, then getCaps: userLock.Lock (repaired: the other way round)
-       k = "h" /\ p = "H.caps.1" -> A(IF FixCapsOrder THEN UserLock(id) ELSE CapsLock(id), "X", {"H.caps.2"})
-    [] k = "h" /\ p = "H.caps.2" -> A(IF FixCapsOrder THEN CapsLock(id) ELSE UserLock(id), "X", {"H.caps.3"})
+       k = "h" /\ p = "H.caps.1" -> {A(IF FixCapsOrder THEN UserLock(id) ELSE CapsLock(id), "X", {"H.caps.2"})}
+    [] k = "h" /\ p = "H.caps.2" -> {A(IF FixCapsOrder THEN CapsLock(id) ELSE UserLock(id), "X", {"H.caps.3"})}
     \* handle_login.go:handleLogin: userLock, capsLock; s.state != nil -> BAD; backend.go:GetState: usersLock; user.go:newState: statesLock W
-    [] k = "h" /\ p = "H.login.u" -> A(UserLock(id), "X", {"H.login.c"})
-    [] k = "h" /\ p = "H.login.c" -> A(CapsLock(id), "X", {IF UOf(id) # NoUser THEN "H.login.rc" ELSE "H.login.ul"})
-    [] k = "h" /\ p = "H.login.ul" -> A(UsersLock, "X", {"H.login.auth"})
-    [] k = "h" /\ p = "H.login.sl" -> A(StatesLock(arg[g]), "X", {"H.login.new"})
+    [] k = "h" /\ p = "H.login.u" -> {A(UserLock(id), "X", {"H.login.c"})}
+    [] k = "h" /\ p = "H.login.c" -> {A(CapsLock(id), "X", {IF UOf(id) # NoUser THEN "H.login.rc" ELSE "H.login.ul"})}
+    [] k = "h" /\ p = "H.login.ul" -> {A(UsersLock, "X", {"H.login.auth"})}
+    [] k = "h" /\ p = "H.login.sl" -> {A(StatesLock(arg[g]), "X", {"H.login.new"})}
     \* handle.go:handleAuthenticatedCommand / handleSelectedCommand: userLock; s.state == nil -> ErrNotAuthenticated; then the sections
-    [] k = "h" /\ p = "H.cmd.u" -> A(UserLock(id), "X", IF UOf(id) = NoUser THEN {"H.cmd.ru"} ELSE SecNext(id, "start"))
-    [] k = "h" /\ p = "H.R.acq" -> A(DB(UOf(id)), "R", {"H.R.rel"})
-    [] k = "h" /\ p = "H.W.acq" -> A(DB(UOf(id)), "X", {"H.W.rel"})
-    [] k = "h" /\ p = "H.Q.acq" -> A(DB(UOf(id)), "X", {"H.Q.sl"})
-    [] k = "h" /\ p = "H.Q.sl"  -> A(StatesLock(UOf(id)), "R", {"H.Q.in"})
+    [] k = "h" /\ p = "H.cmd.u" -> {A(UserLock(id), "X", IF UOf(id) = NoUser THEN {"H.cmd.ru"} ELSE SecNext(id, "start"))}
+    [] k = "h" /\ p = "H.R.acq" -> {A(DB(UOf(id)), "R", {"H.R.rel"})}
+    [] k = "h" /\ p = "H.W.acq" -> {A(DB(UOf(id)), "X", {"H.W.rel"})}
+    [] k = "h" /\ p = "H.Q.acq" -> {A(DB(UOf(id)), "X", {"H.Q.sl"})}
+    [] k = "h" /\ p = "H.Q.sl"  -> {A(StatesLock(UOf(id)), "R", {"H.Q.in"})}
     \* handle_logout.go:handleLogout (runs on the serve loop): userLock, capsLock
-    [] k = "loop" /\ p = "L.logout.u" -> A(UserLock(id), "X", {"L.logout.c"})
-    [] k = "loop" /\ p = "L.logout.c" -> A(CapsLock(id), "X", {"L.logout.rel"})
+    [] k = "loop" /\ p = "L.logout.u" -> {A(UserLock(id), "X", {"L.logout.c"})}
+    [] k = "loop" /\ p = "L.logout.c" -> {A(CapsLock(id), "X", {"L.logout.rel"})}
     \* state.go:ApplyUpdate: user.GetDB().Write
-    [] k = "loop" /\ p = "L.apply.acq" -> A(DB(UOf(id)), "X", {"L.apply.in"})
+    [] k = "loop" /\ p = "L.apply.acq" -> {A(DB(UOf(id)), "X", {"L.apply.in"})}
     \* state.go:Idle -> beginIdle -> flushResponses: user.GetDB().Write
-    [] k = "loop" /\ p = "L.idle.acq" -> A(DB(UOf(id)), "X", {"L.idle.begin"})
+    [] k = "loop" /\ p = "L.idle.acq" -> {A(DB(UOf(id)), "X", {"L.idle.begin"})}
     \* user.go:removeState: db.Read; fn(): statesLock W; db.Write
-    [] k = "loop" /\ p = "RS.R.acq" -> A(DB(UOf(id)), "R", {"RS.R.rel"})
-    [] k = "loop" /\ p = "RS.sl.acq" -> A(StatesLock(UOf(id)), "X", {"RS.sl.in"})
-    [] k = "loop" /\ p = "RS.W.acq" -> A(DB(UOf(id)), "X", {"RS.W.rel"})
+    [] k = "loop" /\ p = "RS.R.acq" -> {A(DB(UOf(id)), "R", {"RS.R.rel"})}
+    [] k = "loop" /\ p = "RS.sl.acq" -> {A(StatesLock(UOf(id)), "X", {"RS.sl.in"})}
+    [] k = "loop" /\ p = "RS.W.acq" -> {A(DB(UOf(id)), "X", {"RS.W.rel"})}
     \* connector_updates.go:apply*: [db.Read]; userDBWrite: db.Write; queueStateUpdate -> forState: statesLock R
-    [] k = "upd" /\ p = "U.R.acq" -> A(DB(id), "R", {"U.R.rel"})
-    [] k = "upd" /\ p = "U.W.acq" -> A(DB(id), "X", {"U.W.rel"})
-    [] k = "upd" /\ p = "U.sl.acq" -> A(StatesLock(id), "R", {"U.sl.in"})
+    [] k = "upd" /\ p = "U.R.acq" -> {A(DB(id), "R", {"U.R.rel"})}
+    [] k = "upd" /\ p = "U.W.acq" -> {A(DB(id), "X", {"U.W.rel"})}
+    [] k = "upd" /\ p = "U.sl.acq" -> {A(StatesLock(id), "R", {"U.sl.in"})}
     \* user.go:close: closeStates (statesLock R); db.Close (db lock W)
-    [] k \in {"closer", "rem"} /\ p = "K.cs.acq" -> A(StatesLock(arg[g]), "R", {"K.cs.in"})
-    [] k \in {"closer", "rem"} /\ p = "K.db.acq" -> A(DB(arg[g]), "X", {"K.db.in"})
+    [] k \in {"closer", "rem"} /\ p = "K.cs.acq" -> {A(StatesLock(arg[g]), "R", {"K.cs.in"})}
+    [] k \in {"closer", "rem"} /\ p = "K.db.acq" -> {A(DB(arg[g]), "X", {"K.db.in"})}
     \* backend.go:Close / RemoveUser: usersLock
-    [] k = "closer" /\ p = "C.ul" -> A(UsersLock, "X", {"C.next"})
-    [] k = "rem" /\ p = "X.ul" -> A(UsersLock, "X", {"X.chk"})
-    [] OTHER -> NoAcq
+    [] k = "closer" /\ p = "C.ul" -> {A(UsersLock, "X", {"C.next"})}
+    [] k = "rem" /\ p = "X.ul" -> {A(UsersLock, "X", {"X.chk"})}
+    \* ---- FreeSections (trace validation): the next section is not chosen ahead of time; the choice is the step itself
+    [] FreeSections /\ k = "h" /\ p = "H.sec" -> {A(DB(UOf(id)), "R", {"H.R.rel"}), A(DB(UOf(id)), "X", {"H.W.in"})}
+    [] FreeSections /\ k = "h" /\ p = "H.W.in" -> {A(StatesLock(UOf(id)), "R", {"H.Q.in"})}
+    [] FreeSections /\ k = "upd" /\ p = "U.sec" -> {A(DB(id), "R", {"U.R.rel"}), A(DB(id), "X", {"U.W.rel"}), A(StatesLock(id), "R", {"U.sl.in"})}
+    [] OpenEnv /\ k = "loop" /\ UOf(id) # NoUser /\ (p \in {"L.sel", "L.idle"} \/ (p = "L.wait" /\ pc[<<"h", id>>] \in {"off", "end"}))
+         -> {A(DB(UOf(id)), "X", {"L.apply.in"})}
+    [] OTHER -> {}
 
 AcqOf(g) == AcqAt(g, pc[g])
 
-WantsWrite(l) == \E g \in G : LET a == AcqOf(g) IN a.m = "X" /\ a.l = l
+WantsWrite(l) == \E g \in G : \E a \in AcqOf(g) : a.m = "X" /\ a.l = l
 CanAcquire(g, l, m) ==
   IF m = "X" THEN Free(l)
   ELSE /\ lk[l].w = None
@@ -249,6 +254,8 @@ RelAt(g, p) ==
     [] k = "h" /\ p = "H.R.rel" -> [l |-> DB(UOf(id)), to |-> SecNext(id, "R")]
     [] k = "h" /\ p = "H.W.rel" -> [l |-> DB(UOf(id)), to |-> SecNext(id, "W")]
     [] k = "h" /\ p = "H.Q.rel" -> [l |-> DB(UOf(id)), to |-> SecNext(id, "Q")]
+    [] FreeSections /\ k = "h" /\ p = "H.W.in" -> [l |-> DB(UOf(id)), to |-> {"H.sec"}]
+    [] FreeSections /\ k = "h" /\ p = "H.sec" /\ cur[id] # "noop" -> [l |-> UserLock(id), to |-> {"H.fin"}]
     [] k = "loop" /\ p = "RS.R.rel" -> [l |-> DB(UOf(id)), to |-> {"RS.sl.acq"}]
     [] k = "loop" /\ p = "RS.W.rel" -> [l |-> DB(UOf(id)), to |-> {"RS.close"}]
     [] k = "upd" /\ p = "U.R.rel" -> [l |-> DB(id), to |-> UNext("R")]
@@ -258,8 +265,7 @@ RelAt(g, p) ==
 RelOf(g) == RelAt(g, pc[g])
 
 AcquireStep(g) ==
-  LET a == AcqOf(g) IN
-  /\ a.m # "-"
+  \E a \in AcqOf(g) :
   /\ CanAcquire(g, a.l, a.m)
   /\ \E t \in a.to :
        LET r == RelAt(g, t) IN
@@ -315,7 +321,7 @@ SrvStep ==
      /\ wg' = [wg EXCEPT !.serveWG = @ - 1]
      /\ Go(Srv, "end") /\ SetLab(Srv, "go.end", "serve")
      /\ UNCHANGED <<chan, accHand>> /\ UNCHANGED SrvUnch
-  \/ /\ pc[Srv] = "S.sel"     \* a connection arrives: the session goroutine greets and starts its command reader
+  \/ /\ (pc[Srv] = "S.sel" \/ (OpenEnv /\ pc[Srv] = "end"))     \* a connection arrives (OpenEnv: the new goroutine's hook may fire late): the session goroutine greets and starts its command reader
      /\ \E s \in Sessions :
           /\ IF OpenEnv THEN pc[Loop(s)] = "off" ELSE pc[Acc] = "A.send" /\ s = accHand
           /\ pc' = [pc EXCEPT ![Acc] = IF OpenEnv THEN @ ELSE "A.accept", ![Loop(s)] = "L.sel", ![Rd(s)] = "R.read"]
@@ -357,7 +363,10 @@ LoopUnch == <<inbox, LoopUnch2>>
 \* a command is ready for the loop: the reader offers it on cmdCh
 \* (Coarse: the reader's Read and its send on cmdCh are private to the session: the loop takes the command in one step)
 FromInbox(s) == Coarse /\ pc[Rd(s)] = "R.read" /\ inbox[s] \notin {"none", "litdata", "lit"} /\ ~srvClosed[s]
-CmdReady(s) == pc[Rd(s)] = "R.send" \/ FromInbox(s) \/ (OpenEnv /\ pc[Rd(s)] = "R.read")
+CmdReady(s) == pc[Rd(s)] = "R.send" \/ FromInbox(s) \/ (OpenEnv /\ pc[Rd(s)] \in {"R.read", "end"})
+\* (OpenEnv: the hook of a receive fires after it, the hook of the reader's close before it: the reader may already be logged
+\*  as ended when the loop's receive of its last command is logged)
+RdAfter(s) == IF OpenEnv THEN pc[Rd(s)] ELSE "R.read"
 CmdKinds0(s) == IF OpenEnv THEN AllCmdKinds ELSE {IF pc[Rd(s)] = "R.send" THEN cur[s] ELSE inbox[s]}
 TakeCmd(s) == inbox' = IF pc[Rd(s)] = "R.send" \/ OpenEnv THEN inbox ELSE [inbox EXCEPT ![s] = "none"]
 \* leaving serve: the deferred cancel() runs before Serve's deferred handleWG.Wait()
@@ -367,45 +376,49 @@ Leave(g, s) == IF Coarse /\ wg.handleWG[s] = 0
                  THEN Go(g, AfterWait(s)) /\ chan' = chan \cup {<<"ctx", s>>, <<"eventCh", s>>}
                  ELSE Go(g, "L.hwait") /\ chan' = chan \cup {<<"ctx", s>>}
 
+\* the loop is in its select (OpenEnv: also when the handler has closed respCh - that transition has no hook)
+AtSel(s) == pc[Loop(s)] = "L.sel" \/ (OpenEnv /\ pc[Loop(s)] = "L.wait" /\ pc[H(s)] \in {"off", "end"})
+
 LoopStep(s) ==
   LET g == Loop(s)  u == sstate[s] IN
   \* select: an update from the state's queue channel (in the main loop and inside handleIdle); update.Filter(state) may drop it
-  \/ /\ pc[g] \in {"L.sel", "L.idle"} /\ u # NoUser /\ (qChan[s] > 0 \/ OpenEnv)
+  \* (OpenEnv: whether ApplyUpdate follows is not decided here - its db.Write may be entered from the select)
+  \/ /\ (AtSel(s) \/ pc[g] = "L.idle") /\ u # NoUser /\ (qChan[s] > 0 \/ OpenEnv)
      /\ qChan' = [qChan EXCEPT ![s] = IF @ > 0 THEN @ - 1 ELSE 0]
-     /\ (Go(g, "L.apply.acq") \/ Go(g, pc[g]))
+     /\ IF OpenEnv THEN Go(g, pc[g]) ELSE (Go(g, "L.apply.acq") \/ Go(g, pc[g]))
      /\ Touch("loop", "own") /\ SetLab(g, "ch.recv", "updateQueue")
      /\ UNCHANGED <<lk, wg, chan, infl, srvClosed, cur, mode, sstate, states, qItems, qClosed>> /\ UNCHANGED LoopUnch
   \* ApplyUpdate inside db.Write: update.Apply -> PushResponder; while idling every response goes to idleCh (unbuffered;
   \* the IDLE sender takes it and writes it to the connection)
-  \/ /\ pc[g] = "L.apply.in" /\ mode[s] = "idle" /\ ~Closed(<<"idleCh", s>>)
+  \/ /\ pc[g] = "L.apply.in" /\ mode[s] = "idle" /\ ~Closed(<<"idleCh", s>>) /\ ~OpenEnv
      /\ Go(g, "L.apply.out") /\ NoLab
      /\ UNCHANGED <<lk, wg, chan, infl, srvClosed, cur, mode, sstate, states, qItems, qChan, qClosed, touches>> /\ UNCHANGED LoopUnch
   \/ /\ pc[g] \in {"L.apply.in", "L.apply.out"}
      /\ lk' = Unlocked(DB(u), g) /\ Go(g, IF mode[s] = "idle" THEN "L.idle" ELSE "L.sel") /\ SetLab(g, "rel", "db")
      /\ UNCHANGED <<wg, chan, infl, srvClosed, cur, mode, sstate, states, qItems, qChan, qClosed, touches>> /\ UNCHANGED LoopUnch
   \* select: a command from the reader (rendezvous on the unbuffered cmdCh)
-  \/ /\ pc[g] = "L.sel" /\ CmdReady(s)
+  \/ /\ AtSel(s) /\ CmdReady(s)
      /\ \E k \in CmdKinds0(s) :
         /\ SetLab(g, "ch.recv", "cmd." \o k)
-        /\ CASE k = "logout" -> /\ Go2(g, "L.logout.u", Rd(s), "R.read") /\ cur' = [cur EXCEPT ![s] = k] /\ UNCHANGED <<wg, infl>>
-          [] k = "idle" /\ u # NoUser -> /\ Go2(g, "L.idle.acq", Rd(s), "R.read") /\ cur' = [cur EXCEPT ![s] = k] /\ UNCHANGED <<wg, infl>>
+        /\ CASE k = "logout" -> /\ Go2(g, "L.logout.u", Rd(s), RdAfter(s)) /\ cur' = [cur EXCEPT ![s] = k] /\ UNCHANGED <<wg, infl>>
+          [] k = "idle" /\ u # NoUser -> /\ Go2(g, "L.idle.acq", Rd(s), RdAfter(s)) /\ cur' = [cur EXCEPT ![s] = k] /\ UNCHANGED <<wg, infl>>
           [] k = "done" \/ (k = "idle" /\ u = NoUser) ->       \* parse error -> BAD / ErrNotAuthenticated -> NO
-               /\ Go2(g, "L.sel", Rd(s), "R.read") /\ Complete(s) /\ cur' = [cur EXCEPT ![s] = "none"] /\ UNCHANGED wg
-          [] OTHER -> /\ pc' = [pc EXCEPT ![g] = "L.wait", ![Rd(s)] = "R.read", ![H(s)] = HStart(k)]   \* handleWG.Go
+               /\ Go2(g, "L.sel", Rd(s), RdAfter(s)) /\ Complete(s) /\ cur' = [cur EXCEPT ![s] = "none"] /\ UNCHANGED wg
+          [] OTHER -> /\ pc' = [pc EXCEPT ![g] = "L.wait", ![Rd(s)] = RdAfter(s), ![H(s)] = HStart(k)]   \* handleWG.Go
                       /\ wg' = [wg EXCEPT !.handleWG[s] = @ + 1] /\ cur' = [cur EXCEPT ![s] = k] /\ UNCHANGED infl
      /\ TakeCmd(s)
      /\ UNCHANGED <<lk, chan, srvClosed, mode, sstate, states, qItems, qChan, qClosed, touches>> /\ UNCHANGED LoopUnch2
   \* for res := range respCh: the handler closed respCh; or res.Send failed (connection down) while the handler may still run:
   \* return fmt.Errorf("failed to send response to client") (a helper goroutine drains respCh)
-  \/ /\ pc[g] = "L.wait" /\ pc[H(s)] \in {"off", "end"}
+  \/ /\ pc[g] = "L.wait" /\ pc[H(s)] \in {"off", "end"} /\ ~OpenEnv
      /\ Go(g, "L.sel") /\ Complete(s) /\ cur' = [cur EXCEPT ![s] = "none"] /\ NoLab
      /\ UNCHANGED <<lk, wg, chan, srvClosed, mode, sstate, states, qItems, qChan, qClosed, touches>> /\ UNCHANGED LoopUnch
-  \/ /\ pc[g] = "L.wait" /\ (ConnDown(s) \/ OpenEnv)
+  \/ /\ pc[g] = "L.wait" /\ ConnDown(s) /\ ~OpenEnv
      /\ Leave(g, s) /\ Complete(s) /\ NoLab
      /\ UNCHANGED <<lk, wg, srvClosed, cur, mode, sstate, states, qItems, qChan, qClosed, touches>> /\ UNCHANGED LoopUnch
   \* select: cmdCh closed / state.Done()
   \* (OpenEnv: also a failed write to the client, an invalidated state, too many bad commands)
-  \/ /\ pc[g] = "L.sel" /\ (Closed(<<"cmdCh", s>>) \/ (u # NoUser /\ Closed(<<"doneCh", s>>)) \/ OpenEnv)
+  \/ /\ pc[g] = "L.sel" /\ (Closed(<<"cmdCh", s>>) \/ (u # NoUser /\ Closed(<<"doneCh", s>>))) /\ ~OpenEnv
      /\ Leave(g, s) /\ NoLab
      /\ UNCHANGED <<lk, wg, infl, srvClosed, cur, mode, sstate, states, qItems, qChan, qClosed, touches>> /\ UNCHANGED LoopUnch
   \* handle_logout.go:handleLogout: BYE and the tagged OK are written while both locks are held
@@ -423,15 +436,17 @@ LoopStep(s) ==
      /\ UNCHANGED <<wg, srvClosed, sstate, states, qItems, qChan, qClosed>> /\ UNCHANGED LoopUnch
   \* handleIdle's select: a command (DONE -> OK, anything else -> BAD), cmdCh closed, state.Done(): return; deferred endIdle: close(idleCh)
   \/ /\ pc[g] = "L.idle"
-     /\ \/ /\ CmdReady(s) /\ Go2(g, "L.sel", Rd(s), "R.read") /\ Complete(s) /\ cur' = [cur EXCEPT ![s] = "none"] /\ TakeCmd(s)
+     /\ \/ /\ CmdReady(s) /\ Go2(g, "L.sel", Rd(s), RdAfter(s)) /\ Complete(s) /\ cur' = [cur EXCEPT ![s] = "none"] /\ TakeCmd(s)
         \/ /\ (Closed(<<"cmdCh", s>>) \/ Closed(<<"doneCh", s>>)) /\ Go(g, "L.sel") /\ UNCHANGED <<infl, cur, inbox>>
      /\ mode' = [mode EXCEPT ![s] = "normal"]
      /\ chan' = IF Bug = "idleNotStopped" THEN chan ELSE chan \cup {<<"idleCh", s>>}
      /\ SetLab(g, "ch.close", "idleCh")
      /\ UNCHANGED <<lk, wg, srvClosed, sstate, states, qItems, qChan, qClosed, touches>> /\ UNCHANGED LoopUnch2
   \* Serve: deferred s.handleWG.Wait(); then session.go:done: close(s.eventCh); s.state != nil -> state.ReleaseState -> user.removeState
-  \/ /\ pc[g] = "L.hwait" /\ wg.handleWG[s] = 0
-     /\ Close(<<"eventCh", s>>)
+  \* (OpenEnv: serve may return from its select or from `range respCh` for reasons the model leaves open - a failed write,
+  \*  an invalidated state, too many bad commands, the closed cmdCh or doneCh; the hook fires when Wait has returned)
+  \/ /\ (pc[g] = "L.hwait" \/ (OpenEnv /\ pc[g] \in {"L.sel", "L.wait"})) /\ wg.handleWG[s] = 0
+     /\ chan' = chan \cup {<<"eventCh", s>>, <<"ctx", s>>}
      /\ Go(g, AfterWait(s))
      /\ SetLab(g, "wg.wait", "handleWG")
      /\ UNCHANGED <<lk, wg, infl, srvClosed, cur, mode, sstate, states, qItems, qChan, qClosed, touches>> /\ UNCHANGED LoopUnch
@@ -497,18 +512,19 @@ HStep(s) ==
      /\ UNCHANGED <<lk, wg, states, qItems, touches>> /\ UNCHANGED HUnch
   \* handle_noop.go:handleNoop: no userLock; flushes only when a mailbox is selected
   \/ /\ pc[g] = "H.noop"
-     /\ \/ Go(g, "H.fin") \/ (u # NoUser /\ \E n \in SecNext(s, "start") : Go(g, n))
+     /\ \/ (~FreeSections /\ Go(g, "H.fin"))
+        \/ ((u # NoUser \/ FreeSections) /\ \E n \in SecNext(s, "start") : Go(g, n))
      /\ NoLab
      /\ UNCHANGED <<lk, wg, arg, sstate, states, qItems, touches>> /\ UNCHANGED HUnch
   \* state_user_interface_impl.go:QueueOrApplyStateUpdate inside the second db.Write: forState (statesLock R):
   \*   own state: update.Apply at once; every other state: state.QueueUpdates
   \/ /\ pc[g] = "H.Q.in"
      /\ Enqueue(states[u] \ {s}) /\ Touch("h", "own")
-     /\ lk' = Unlocked(StatesLock(u), g) /\ Go(g, "H.Q.rel") /\ SetLab(g, "rel", "statesLock")
+     /\ lk' = Unlocked(StatesLock(u), g) /\ Go(g, IF FreeSections THEN "H.W.in" ELSE "H.Q.rel") /\ SetLab(g, "rel", "statesLock")
      /\ UNCHANGED <<wg, arg, sstate, states>> /\ UNCHANGED HUnch
   \* deferred close(resCh); handleWG.Done
   \* (Coarse: the loop waiting in `range respCh` goes on in the same step - nothing else can observe the difference)
-  \/ /\ pc[g] = "H.fin" /\ ~(Coarse /\ pc[Loop(s)] = "L.wait")
+  \/ /\ (pc[g] = "H.fin" \/ (FreeSections /\ pc[g] = "H.sec" /\ cur[s] = "noop")) /\ ~(Coarse /\ pc[Loop(s)] = "L.wait")
      /\ wg' = [wg EXCEPT !.handleWG[s] = @ - 1] /\ Go(g, "end") /\ SetLab(g, "wg.done", "handleWG")
      /\ UNCHANGED <<lk, arg, sstate, states, qItems, touches>> /\ UNCHANGED HUnch
   \/ /\ pc[g] = "H.fin" /\ Coarse /\ pc[Loop(s)] = "L.wait"
@@ -562,10 +578,10 @@ UpdStep(u) ==
   \/ /\ pc[g] = "U.sel" /\ ~OpenEnv /\ pc[Fwd(u)] = "F.send" /\ ~Closed(<<"forwardQuit", u>>)
      /\ \E n \in UNext("start") : Go2(g, n, Fwd(u), "F.sel")
      /\ SetLab(g, "ch.recv", "updatesCh") /\ UNCHANGED <<lk, wg, chan, qItems, fwdHeld, touches>> /\ UNCHANGED UpdUnch
-  \/ /\ pc[g] = "U.sel" /\ OpenEnv
+  \/ /\ pc[g] \in {"U.sel", "U.sec"} /\ OpenEnv
      /\ \E n \in UNext("start") : Go(g, n)
      /\ SetLab(g, "ch.recv", "updatesCh") /\ UNCHANGED <<lk, wg, chan, qItems, fwdHeld, touches>> /\ UNCHANGED UpdUnch
-  \/ /\ pc[g] = "U.sel" /\ (Closed(<<"updateQuit", u>>) \/ Closed(<<"updatesCh", u>>))
+  \/ /\ pc[g] \in {"U.sel", "U.sec"} /\ (Closed(<<"updateQuit", u>>) \/ Closed(<<"updatesCh", u>>))
      /\ wg' = [wg EXCEPT !.updateWG[u] = @ - 1] /\ Go(g, "end") /\ SetLab(g, "wg.done", "updateWG")
      /\ UNCHANGED <<lk, chan, qItems, fwdHeld, touches>> /\ UNCHANGED UpdUnch
   \/ /\ pc[g] = "U.sl.in"
@@ -764,7 +780,7 @@ TypeOK ==
 
 \* Lock-order consistency: whenever a goroutine holds l1 and is about to acquire l2, l1 is left of l2 in ONE fixed
 \* hierarchy (Rank).  The held-while-acquiring relation is contained in a strict order, hence acyclic.
-LockOrder == \A g \in G : LET a == AcqOf(g) IN a.m # "-" => \A l \in HeldBy(g) : Rank(l) < Rank(a.l)
+LockOrder == \A g \in G : \A a \in AcqOf(g) : \A l \in HeldBy(g) : Rank(l) < Rank(a.l)
 
 \* user.statesWG covers every state in user.states
 StatesCounted == \A u \in Users : Cardinality(states[u]) <= wg.statesWG[u]
